@@ -404,10 +404,79 @@ def _run_reciprocal(c):
     c.nontrivial = True
 
 
+def _same_tokens(doc):
+    """A tokenizer for a corpus that is tokenised already."""
+    return doc
+
+
+def _run_text(c):
+    """The traceable vectorizers: the corpus is the caller's data too."""
+    import copy
+
+    from mlinsights.mlmodel import TraceableCountVectorizer, TraceableTfidfVectorizer
+
+    ch = c.ch
+    cls = ch.choice("w", [TraceableCountVectorizer, TraceableTfidfVectorizer], "vectorizer")
+    pretok = ch.boolean("w", 0.5, "pre-tokenised")
+    ngram = ch.choice("w", [(1, 1), (1, 2), (2, 2)], "ngram_range")
+    seed = ch.subseed("w", "data")
+    rs = numpy.random.RandomState(seed)
+    words = ["this", "is", "a", "Test", "of", "words", "and", "more", "words"]
+    docs = [[words[i] for i in rs.randint(0, len(words), rs.randint(2, 7))] for _ in range(ch.integer("w", 2, 6, "n-docs"))]
+    if pretok:
+        corpus = [list(dd) for dd in docs]  # each document a list of tokens
+        est = cls(tokenizer=_same_tokens, lowercase=False, token_pattern=None, ngram_range=ngram)
+    else:
+        corpus = [" ".join(dd) for dd in docs]
+        est = cls(ngram_range=ngram, lowercase=ch.choice("w", [True, False], "lowercase"))
+    name = cls.__name__
+    c.scenario = {"class": name, "template": "text", "pre_tokenised": pretok, "ngram_range": ngram, "data_seed": seed}
+    c.signature = [name, "text", pretok, ngram]
+    c.entropy = E.Entropy("pinned")
+    c.fault_plan = None
+    seen = set()
+
+    def viol(oracle, detail, msg):
+        sig = (PROP, oracle, name) + tuple(detail)
+        if sig not in seen:
+            seen.add(sig)
+            c.violation(PROP, oracle, sig, msg + " | scenario: " + repr(c.scenario))
+
+    fp0 = U.param_fingerprint(est)
+    before = copy.deepcopy(corpus)
+    history = ch.choice("w", ["fit,transform", "fit_transform", "fit,transform,fit", "fit_transform,transform"], "history").split(",")
+    c.scenario["history"] = history
+    for op in history:
+        if op == "fit":
+            ok, r = U.sut(c, "fit", est.fit, corpus)
+            if ok and r is not est:
+                viol("fit-returns-self", (), "fit returned %r instead of the estimator" % (type(r).__name__,))
+        elif op == "transform":
+            ok, r = U.sut(c, "transform", est.transform, corpus)
+        else:
+            ok, r = U.sut(c, "fit_transform", est.fit_transform, corpus)
+        if not ok:
+            c.probe("fit_raised_on_generated_data:" + name)
+            return
+        dd = U.diff_fingerprint(fp0, U.param_fingerprint(est))
+        if dd:
+            viol("params-changed", (dd[0][0], "after:" + op), "get_params()[%r] changed from %r to %r after %s" % (dd[0][0], dd[0][1], dd[0][2], op))
+        if corpus != before:
+            j = [i for i in range(len(before)) if corpus[i] != before[i]][0]
+            viol("inputs-modified", ("after:" + op, "pre-tokenised" if pretok else "strings"), "the caller's corpus was modified by %s: document %d was %r and is %r" % (op, j, before[j], corpus[j]))
+            return
+    c.nontrivial = True
+    c.probe("text_vectorizer_scenario")
+
+
 def run(c, index, tier):
     ch = c.ch
-    if ch.draw("w", 12, "reciprocal-branch") == 11:
+    branch = ch.draw("w", 12, "reciprocal-branch")
+    if branch == 11:
         _run_reciprocal(c)
+        return
+    if branch == 10:
+        _run_text(c)
         return
     spec = ch.choice("w", R.SPECS, "spec")
     cfg = spec.draw(ch)
